@@ -35,6 +35,10 @@ def first_connections(rnd):
     sc("mid-fragmented-binary", [("data", 0, hs + E(2, b"abc", fin=0) + E(0, b"def", fin=0)), ("exc", 0)])
     sc("mid-compression-context", [("data", 0, hsz + E(1, z1, rsv=4) + E(1, z2[:len(z2) // 2], rsv=4, fin=0)), ("eof", 0)], ws_compress=True)
     sc("compression-then-close", [("data", 0, hsz + E(1, z1, rsv=4)), ("data", 0, E(8, b"\x03\xe8")), ("eof", 0)], ws_compress=True, app={3: [("text", b"zip zip zip zip", True)]})
+    # other negotiated parameters than the next connection will get
+    hsn = ref6455.handshake_response(acc, extra=b"Sec-WebSocket-Extensions: permessage-deflate; server_no_context_takeover; client_no_context_takeover; client_max_window_bits=9\r\n")
+    pn = ref7692.Peer(15, 9, True, True)
+    sc("compression-no-takeover-small-window", [("data", 0, hsn + E(1, pn.compress(b"alpha beta gamma " * 10), rsv=4) + E(1, pn.compress(b"alpha beta"), rsv=4)), ("eof", 0)], ws_compress=True)
     sc("while-closing", [("data", 0, hs + E(1, b"a")), ("eof", 0)], app={3: [("close", 1000, b"bye")]})
     sc("closing-timeout", [("data", 0, hs)] + [("timeout", 5120)] * 9, app={2: [("close", 1000, b"")]})
     sc("closed-gracefully", [("data", 0, hs + E(8, b"\x03\xe8")), ("eof", 0)])
@@ -60,7 +64,12 @@ def second_connection(rnd, compress):
         peer = ref7692.Peer()
         m = b"second connection " * 5
         body += E(1, peer.compress(m), rsv=4)
-        ztape = [m]
+        # a second message that needs everything this reply negotiated: the full 32 KiB window (a repeat 5 000 bytes back) and
+        # context takeover (it refers to the first message) -- whatever an earlier connection of the object had negotiated
+        far = scen.rand_bytes(rnd, 61) * 80
+        m2 = far + b" -- " + far[:300] + m
+        body += E(2, peer.compress(m2), rsv=4)
+        ztape = [m, m2]
     body += E(8, ref6455.close_payload(1000, b"done"))
     chunks = scen.chunkings(rnd, hs + body, rnd.choice(["one", "random", "small"]))
     steps = [("data", 0, chunks[0])] + [("timeout", 5120)] + [("data", 100, c) for c in chunks[1:]] + [("eof", 0)]
@@ -68,6 +77,19 @@ def second_connection(rnd, compress):
     app = {3: [("text", b"ping me", True)], 6: [("ping", b"q")]}
     return dict(cfg=simnet.default_cfg(ping_rate=4096, ping_timeout=40960), steps=steps, key16=key, keys=scen.keys(rnd, 8), app=app,
                 ztape=ztape, ctape=[cc(b"ping me")] if compress else [], zlog=False)
+
+
+def _fresh_single(args):
+    """the second connection alone, on a new WebSocket object (runs in a fresh interpreter: harness.fresh)"""
+    sc, _opts = args
+    try:
+        import lomond.websocket as W
+        d = dict(sc)
+        ws_kwargs = d.pop("_kw", {})
+        d["_ws_object"] = W.WebSocket("ws://example.test/chat", **ws_kwargs)
+        return simnet.canon_trace(simnet.run_impl(d).trace)
+    except BaseException:
+        return None
 
 
 def _pair_worker(args):
@@ -105,6 +127,7 @@ def run(rep, info, model, tier, seed):
     mod = model.run([simnet.to_sx(p[2]) for p in pairs]) if model is not None else [None] * len(pairs)
     rep.watch_extraction(model, [simnet.to_sx(p[2]) for p in pairs[:30]])
     dis = 0
+    suspects = []
     for (label, sc1, sc2), r, m in zip(pairs, res, mod):
         rep.add_case(fam.fingerprint(sc1) + fam.fingerprint(sc2))
         rep.traces_vs_impl += 1
@@ -131,8 +154,22 @@ def run(rep, info, model, tier, seed):
             dis += 1
             if dis == 1:
                 first = (label, fam.no_waits(simnet.canon_trace(m))[:12], fam.no_waits(t3)[:12])
+            if len(suspects) < 3 and t2 == t3:
+                suspects.append((label, sc1, sc2, t2))
         if len(rep.samples) < 3:
             rep.sample(dict(previous_ending=label, previous_trace=t1[:15], next_trace=t2[:15]))
+    # the "fresh" object above lives in a process that has made connections before.  Where the model disagrees with it although
+    # the second connection and that object agree, the baseline is taken again from a WebSocket constructed in a fresh interpreter
+    for label, sc1, sc2, t2 in suspects:
+        kw = dict(compress=True) if (sc1.get("ws_compress") or sc2.get("ztape")) else {}
+        base = fam.fresh_run([dict(sc2, _kw=kw)], runner="harness.c17:_fresh_single")[0]
+        if base is not None and base != t2:
+            k = 0
+            while k < min(len(t2), len(base)) and t2[k] == base[k]:
+                k += 1
+            rep.violation("after a previous connection that ended '%s', the next connection behaves differently from a WebSocket constructed in a fresh interpreter (first difference at trace item %d: %r vs fresh %r): state outside the object survived" % (label, k, t2[k:k + 2], base[k:k + 2]),
+                          scenario=dict(previous=fam.jsonable_sc(sc1), next=fam.jsonable_sc(sc2), fresh_interpreter=True, kw=kw), expected=base[:60], actual=t2[:60], family="C17:reconnect-pairs")
+            break
     if dis and not rep.violations:
         rep.broken("correspondence C17: the model disagrees with a fresh WebSocket on %d second-connection scenarios; first %r" % (dis, first))
     rep.families.append(dict(name="C17:reconnect-pairs", cases=len(pairs), disagreements=dis,
@@ -180,6 +217,9 @@ def replay(body):
         print(r)
         return 2
     ok = r[0] == r[1]
+    if ok and sc.get("fresh_interpreter"):
+        base = fam.fresh_run([dict(fam.unjson_sc(sc["next"]), _kw=sc.get("kw") or {})], runner="harness.c17:_fresh_single")[0]
+        ok = base is None or base == r[0]
     print("second connection == fresh object:", ok)
     print("REPLAY:", "property holds on this input" if ok else "VIOLATION reproduced")
     return 0 if ok else 1
